@@ -89,10 +89,11 @@ RECURSIVE WholeParts(_, _)
 WholeParts(from, to) ==     \* parts from..to-1 in full
   IF from >= to THEN <<>> ELSE PartRange(from, 0, None) \o WholeParts(from + 1, to)
 
-\* MergedSequences.slice (iter_utils.py:284-300)
+\* MergedSequences.slice (iter_utils.py:287-305): the bounds are normalised like a list's (slice.indices(len): negative
+\* bounds count from the end, whatever lies beyond either end is clamped), then mapped to (part, offset)
 ImplSlice(a, b) ==
-  LET st == ImplIndex(IF a = None THEN 0 ELSE a)
-      sp == ImplIndex(IF b = None THEN Total ELSE b)
+  LET st == ImplIndex(IF a = None THEN 0 ELSE Clamp(a))
+      sp == ImplIndex(IF b = None THEN Total ELSE Clamp(b))
   IN IF st[1] = NParts \/ st[1] > sp[1] THEN <<>>
      ELSE IF st[1] = sp[1] THEN PartRange(st[1], st[2], sp[2])
      ELSE PartRange(st[1], st[2], None)
@@ -106,7 +107,7 @@ Init == /\ parts \in {p \in PartSeqs : SumTo(p, Len(p)) <= MaxTotal}
         /\ hist = <<>>
 
 Indices == (-Total - 1)..(Total + 1)
-Bounds  == ((-Total)..(Total + 1)) \cup {None}
+Bounds  == ((-Total - 2)..(Total + 2)) \cup {None}       \* incl. bounds beyond both ends (a list clamps them)
 
 GetOp(i) ==
   /\ hist = <<>>
